@@ -1,6 +1,6 @@
 #!/bin/bash
 # usage: tools/try_mutant.sh <patch.diff> [checks...]   (default: all quick checks)
-# applies the patch to /repo, runs the repo test suite and the checks, reverts. Prints which checks fire.
+# applies the patch to /repo, runs the repo test suite and the checks (PAR at a time), reverts. Prints which checks fire.
 set -u
 PATCH="$(realpath "$1")"; shift
 CHECKS="${*:-C01 C02 C03 C04 C05 C06 C07 C08 C09 C10 C11 C12 C13 C14 C15 C16 C17 C18 C19 C20}"
@@ -11,10 +11,14 @@ trap 'git -C /repo checkout -- . ; git -C /repo clean -fdq pyasn1' EXIT
 T=$(/venv/bin/python -m pytest -q -p no:cacheprovider 2>&1 | tail -1)
 echo "suite: $T"
 cd /verif
+TMP=$(mktemp -d)
+one() { c=$1; out=$(bin/check $c --tier ${TIER:-quick} 2>&1); rc=$?; echo "$rc" > $2/$c.rc; echo "$out" > $2/$c.out; }
+export -f one
+echo $CHECKS | tr ' ' '\n' | xargs -P ${PAR:-3} -I{} bash -c "one {} $TMP"
 FIRED=""
 for c in $CHECKS; do
-  out=$(bin/check $c --tier ${TIER:-quick} 2>&1); rc=$?
-  n=$(echo "$out" | grep -c '^VIOLATION')
-  if [ $rc -ne 0 ]; then FIRED="$FIRED $c"; echo "  $c rc=$rc groups=$n: $(echo "$out" | grep -A1 '^VIOLATION' | grep clause | head -3 | tr '\n' ';' | cut -c1-300)"; fi
+  rc=$(cat $TMP/$c.rc)
+  if [ "$rc" != "0" ]; then FIRED="$FIRED $c"; n=$(grep -c '^VIOLATION' $TMP/$c.out); echo "  $c rc=$rc groups=$n: $(grep -A1 '^VIOLATION' $TMP/$c.out | grep clause | head -3 | tr '\n' ';' | cut -c1-300)"; fi
 done
+rm -rf $TMP
 echo "FIRED:$FIRED"
